@@ -4,14 +4,18 @@
    Proved: the five rules, the capacity cap, the order placed by the ordering step = min(capacity, rule(IP)) with IP the
    position after this period's inbound orders (defined in the statement), no order while order-pausing disrupted,
    raw-material orders = finished-goods order for every supplier (network BOM numbers are 1 for single-product nodes),
-   and the ONE-STAGE case of the echelon / local base-stock equivalence.
-   NOT proved: [echelon_local_equivalence_statement] for serial systems of any length (decided by the EBS correspondence
-   and by an EBS-vs-converted-BS trajectory oracle on the implementation).
+   and the echelon / local base-stock equivalence for SERIAL SYSTEMS OF ANY LENGTH (Sim/Serial.v): the run under echelon
+   base-stock with the converted levels and the run under local base-stock are equal as lists of states (every state
+   variable of every stage in every period), for every chain, non-negative local levels, shipment lead times, node listing
+   order, demand sequence and horizon (order lead time 0, started at the local levels, undisrupted — the setting of the
+   property). The networks NWloc / NWech of that theorem are themselves run against the implementation on generated
+   serial systems by the harness.
    Multi-product nodes (Sim/MultiOrder.v: the ordering step of ONE node in ONE period, the state it starts from being an
    input): each product's order = min(capacity, rule(position with units earmarked for the other products)), the
    raw-material orders add up per raw material to NBOM x finished-goods orders, the first supplier gets everything.
    The evolution of multi-product networks over time is not modelled (monitors on the implementation only). *)
-From SV Require Import Sim.Model Sim.Inv_base Sim.Policy_thms Sim.Main Sim.Example Sim.MultiOrder Sim.MultiOrder_proofs.
+From SV Require Import Sim.Model Sim.Inv_base Sim.Policy_thms Sim.Main Sim.Example Sim.MultiOrder Sim.MultiOrder_proofs Sim.Obs Sim.Serial.
+From Coq Require Import Permutation.
 
 Theorem C04_base_stock_rule : forall lv ip, let q := rule (BS lv) ip in 0 <= q /\ q == qmax 0 (lv - ip) /\ ip + q == qmax lv ip.
 Proof. exact bs_rule. Qed.
@@ -47,12 +51,30 @@ Proof. exact raw_material_orders. Qed.
 Theorem C04_echelon_local_equivalence_partial : forall NW s n p, succs (cfg NW n) = [] -> suppliers (cfg NW n) = [p] ->
   echelon_ip NW s n - qsumf (fun c => gq s (fIO, n, c)) (customers (cfg NW n)) == local_ip NW s n.
 Proof. exact echelon_eq_local_single_stage. Qed.
-(* full statement (not proved): on a serial system, EBS with the echelon levels obtained from non-negative local levels
-   S and BS with S, started at inventory levels S, have equal inventory-level and order trajectories *)
-Definition echelon_local_equivalence_statement : Prop :=
-  forall (NWe NWl : net) inputs, (* NWe = NWl except pol: EBS (suffix sums of S) vs BS S, serial, olt = 0, init_il = S >= 0 *)
-    True -> map (fun e => map (fun n => (gq e (fIL, n, Ext), gq e (fOQFG, n, Ext))) (nodes NWe)) (run NWe inputs)
-          = map (fun e => map (fun n => (gq e (fIL, n, Ext), gq e (fOQFG, n, Ext))) (nodes NWl)) (run NWl inputs).
+(* serial systems of any length. [stages]: the chain upstream to downstream as (index, local level, shipment lead time);
+   [order]: the node listing order of the network (any permutation); NWloc: every stage BS (local level); NWech: every stage
+   EBS (local level + local levels of all stages downstream), see C04_echelon_level_formula *)
+Theorem C04_serial_echelon_eq_local : forall h p order stages inputs,
+  stages <> [] -> NoDup (map sidx stages) -> Permutation order (map sidx stages) ->
+  Forall (fun x => 0 <= slev x) stages -> inputs_ok stages inputs ->
+  run (NWech h p order stages) inputs = run (NWloc h p order stages) inputs.
+Proof. exact serial_echelon_eq_local. Qed.
+Theorem C04_serial_echelon_eq_local_every_field : forall h p order stages inputs t k,
+  stages <> [] -> NoDup (map sidx stages) -> Permutation order (map sidx stages) ->
+  Forall (fun x => 0 <= slev x) stages -> inputs_ok stages inputs ->
+  gq (nth t (run (NWech h p order stages) inputs) empty_st) k = gq (nth t (run (NWloc h p order stages) inputs) empty_st) k /\
+  gl (nth t (run (NWech h p order stages) inputs) empty_st) k = gl (nth t (run (NWloc h p order stages) inputs) empty_st) k.
+Proof. exact serial_echelon_eq_local_fields. Qed.
+Theorem C04_echelon_level_formula : forall stages pre x post, NoDup (map sidx stages) -> stages = pre ++ x :: post ->
+  ech (lev stages) (map sidx stages) (sidx x) == slev x + qsum (map slev post).
+Proof. exact echelon_level_formula. Qed.
+(* a 3-stage chain 7 -> 3 -> 5 listed as [3; 5; 7]: hypotheses hold, levels BS 4/6/5 vs EBS 15/11/5, the sink and stage 3 are short in period 1 *)
+Example C04_serial_nonvacuous :
+  Serial.ex_stages <> [] /\ NoDup (map sidx Serial.ex_stages) /\ Permutation Serial.ex_order (map sidx Serial.ex_stages) /\
+  Forall (fun x => 0 <= slev x) Serial.ex_stages /\ inputs_ok Serial.ex_stages Serial.ex_inputs /\
+  (let e := nth 1 (run (NWloc Serial.ex_h Serial.ex_p Serial.ex_order Serial.ex_stages) Serial.ex_inputs) empty_st in
+   gq e (fIL, 5%N, Ext) < 0 /\ gq e (fIL, 3%N, Ext) < 0 /\ 0 < gq e (fBO, 3%N, Nd 5%N) /\ 0 < gq e (fBO, 7%N, Nd 3%N) /\ 0 < gq e (fOQFG, 7%N, Ext)).
+Proof. destruct serial_nonvacuous as (H1 & H2 & H3 & H4 & H5 & _ & _ & H8 & _). exact (conj H1 (conj H2 (conj H3 (conj H4 (conj H5 H8))))). Qed.
 
 (* ---- multi-product nodes: bill-of-materials clause ---- *)
 Theorem C04_multi_fg_order_follows_policy : forall prods rms, mwf prods rms -> forall pre pd post, prods = pre ++ pd :: post ->
@@ -109,6 +131,9 @@ Print Assumptions C04_position_after_demand.
 Print Assumptions C04_order_pausing.
 Print Assumptions C04_raw_material_orders.
 Print Assumptions C04_echelon_local_equivalence_partial.
+Print Assumptions C04_serial_echelon_eq_local.
+Print Assumptions C04_serial_echelon_eq_local_every_field.
+Print Assumptions C04_echelon_level_formula.
 Print Assumptions C04_multi_fg_order_follows_policy.
 Print Assumptions C04_multi_raw_material_orders_add_up.
 Print Assumptions C04_multi_first_supplier_gets_all.
